@@ -1,9 +1,11 @@
 /-
 C03 — helper lemmas: `ensemble.FullStack` (`Ensembler.compose` + `FullStack.Builder.build`) realises `denoteStack`.
 
-The region certificate (`Spec True`) of the scope and of every base model is consumed (`Segment.copy`); the trunk of the
-ensemble itself is certified without it (`Spec False`): no stacking ensemble in the scope or among the base models of
-another one.
+The region certificate (`Spec True`) of the scope and of every base model is consumed (`Segment.copy`) and re-established
+for the trunk of the ensemble itself (`spec_stack` concludes `Spec True`): the nodes reachable from the ensemble's apply
+head — fold expansions of the scope, fold expansions of the bases, reducer forks, `apply_output` — are evaluable and fed
+from the apply side only; the held-out copies, the stacker forks, `train_output` and `label_output` are not reachable from
+it (`Lemmas/C03Areg.lean`).  Hence a stacking ensemble may sit in the scope or among the base models of another one.
 -/
 import ForML.Lemmas.C03Bases
 
@@ -262,9 +264,9 @@ theorem stack_head {g : Graph} {W : World} (hi : Inv g W) (hw : Wired g) (xa xt 
       exfalso
       by_cases hs : s' < g.next
       · rw [hfg9.input s' k hs] at he
-        have := hw.pub_lt he
-        have := h0.ha.ge
-        simp at this; omega
+        have h1 := hw.pub_lt he
+        have h2 := h0.ha.ge
+        simp at h1; omega
       · rcases in9 s' k _ (by omega) he with ⟨_, e⟩ | ⟨_, e⟩
         · have e' : p = head.train.tail := congrArg PubRef.node e
           rw [ih, htails.2.1] at e'
@@ -329,9 +331,9 @@ theorem stack_head {g : Graph} {W : World} (hi : Inv g W) (hw : Wired g) (xa xt 
 
 set_option maxHeartbeats 1600000 in
 theorem spec_stack {scope : GraphM Trunk} {S : Scope} (hs : Spec True scope S) (hS : S.Indep)
-    (pairs : List (GraphM Trunk × Scope)) (hp : ∀ p ∈ pairs, Spec True p.1 p.2 ∧ p.2.Indep)
-    (n splitter appender stacker reducer : Nat) :
-    Spec False (composeStack (pairs.map (·.1)) n splitter appender stacker reducer scope)
+    (pairs : List (GraphM Trunk × Scope)) (hp : ∀ p ∈ pairs, Spec True p.1 p.2 ∧ p.2.Indep) (hpne : pairs ≠ [])
+    (n splitter appender stacker reducer : Nat) (hn : 0 < n) :
+    Spec True (composeStack (pairs.map (·.1)) n splitter appender stacker reducer scope)
       (denoteStack (pairs.map (·.2)) n splitter appender stacker reducer S) := by
   intro g W xa xt xl r hi hw hr
   obtain ⟨head, g9, W9, ff, lf, hrunH, H⟩ := stack_head hi hw xa xt xl r hr splitter n
@@ -345,8 +347,17 @@ theorem spec_stack {scope : GraphM Trunk} {S : Scope} (hs : Spec True scope S) (
   have hg9 := H.frame.next_le
   have hn9 := H.next
   -- the folds
-  obtain ⟨folds, gF, WF, rF, hlF, hlenF, hfvF, tsF, htsF, hliveF, hmapF⟩ :=
-    foldsLoop_spec hs hS head ff lf (r + 2) g.next xa feats labs n 0 g9 W9 H.inv H.wired (by omega) (by omega) Hpubs
+  obtain ⟨a, hadef⟩ : ∃ x, x = head.apply.head := ⟨_, rfl⟩
+  have hlt9' : ∀ u, W9.live u → u < g9.next := fun u hu => (H.inv.liveLt u hu).1
+  have ha9 : a < g9.next := by rw [hadef]; exact hlt9' _ H.ha.live
+  have hage : g.next ≤ a := by rw [hadef]; exact H.ha.ge
+  obtain ⟨folds, gF, WF, rF, hlF, hlenF, hfvF, haregF, hfrF, tsF, htsF, hliveF, hmapF⟩ :=
+    foldsLoop_spec hs hS head ff lf (r + 2) g.next xa feats labs g9 a H.wired H.inv.bounded ha9
+      (by show Reach g9 a head.apply.tail; rw [H.tails.1, hadef]; exact Reach.refl)
+      (fun h => H.ffne.1 (H.reach _ (hadef ▸ h))) (fun h => H.ffne.2 (H.reach _ (hadef ▸ h)))
+      ⟨⟨by show g.next ≤ head.apply.tail; rw [H.tails.1]; exact H.ha.ge,
+        by show head.apply.tail < g9.next; rw [H.tails.1]; exact hlt9' _ H.ha.live⟩, H.ffuid, H.lfuid⟩
+      n 0 g9 W9 H.inv H.wired (by omega) (by omega) Hpubs (Frame.refl g9) (AReg.init H.inv.bounded ha9)
   rw [← hfoldSem, ← htestV] at hfvF
   have hnF := hlF.next_le
   obtain ⟨RF, hRF⟩ : ∃ x, x = r + 2 + (gF.next - g9.next) := ⟨_, rfl⟩
@@ -403,11 +414,18 @@ theorem spec_stack {scope : GraphM Trunk} {S : Scope} (hs : Spec True scope S) (
     cA0.same (hlL.kind _ cA0.lt) (fun k => hlL.input _ k cA0.lt (fun e => hne_la e.symm)) hlL.next_le (fun h => h)
   -- the base models
   have hRFle : RF ≤ gL.next := by rw [hnL, hnO]; omega
-  obtain ⟨gB, WB, insT, insA, rB, hlB, cT, cA, hrefB, hvT, hvA, tsB, htsB, hliveB, hmapB⟩ :=
-    basesLoop_spec folds stacker reducer tO aO hne_ta aP (pairs.map (·.1)).length RF g.next foldSem testV lf.uid pairs hp []
+  have haF : a < gF.next := by omega
+  have hfFL : Frame gF gL := hlL.frameFrom hfO (fun x hx => by rw [hx]; exact Nat.le_refl _)
+  obtain ⟨gB, WB, insT, insA, rB, hlB, cT, cA, hrefB, hvT, hvA, haregB, hreachB, tsB, htsB, hliveB, hmapB⟩ :=
+    basesLoop_spec folds stacker reducer tO aO hne_ta aP (pairs.map (·.1)).length RF g.next foldSem testV lf.uid
+      gF a gL.next hlF.wired hbF haF
+      ⟨by show gF.next ≤ gF.next + 2; omega, by show gF.next + 2 < gL.next; rw [hnL, hnO]; omega⟩
+      ⟨by show gF.next ≤ gF.next + 4; omega, by show gF.next + 4 < gL.next; rw [hnL, hnO]; omega⟩
+      hfrF (by rw [hlenF]; exact hn) pairs hp []
       gL WF none none _ _ RF hlL.inv hlL.wired hRFle (by rw [hnL, hnO]; omega) (Nat.le_refl _) hfvO cTL cAL trivial trivial
-      (fun b hb => absurd hb (Nat.not_lt_zero b)) rfl rfl
-  simp only [List.length_nil, Nat.zero_add, List.nil_append] at cT cA hrefB hvT hvA rB
+      (fun b hb => absurd hb (Nat.not_lt_zero b)) rfl rfl hfFL (Nat.le_refl _) (AReg.init hlL.inv.bounded (by rw [hnL, hnO]; omega))
+      (fun b hb => absurd hb (Nat.not_lt_zero b))
+  simp only [List.length_nil, Nat.zero_add, List.nil_append] at cT cA hrefB hvT hvA rB hreachB
   have hnB := hlB.next_le
   have hltB : ∀ u, WB.live u → u < gB.next := fun u hu => (hlB.inv.liveLt u hu).1
   -- the three collectors become evaluable
@@ -546,11 +564,112 @@ theorem spec_stack {scope : GraphM Trunk} {S : Scope} (hs : Spec True scope S) (
     intro k hk
     rw [hinsL k (List.mem_range.mp hk)]
     exact (pubL _).val
+  -- the apply side of the ensemble: a copyable region again
+  have hgL5 : gL.next = gF.next + 5 := by rw [hnL, hnO]
+  have hF9B : Frame g9 gB := hAll.frameFrom (Frame.refl g9) (fun x hx => by
+    rcases hx with e | e | e <;> rw [e]
+    · show g9.next ≤ gF.next; omega
+    · show g9.next ≤ gF.next + 2; omega
+    · show g9.next ≤ gF.next + 4; omega)
+  have hFFB : Frame gF gB := hlB.frameFrom hfFL (fun x hx => by
+    rcases hx with e | e <;> rw [e]
+    · show gF.next ≤ gF.next + 2; omega
+    · show gF.next ≤ gF.next + 4; omega)
+  have hlenpos : 0 < pairs.length := List.length_pos_iff.mpr hpne
+  -- the inputs of what lies between the folds and the base models: the three collectors
+  have midIn : ∀ s k q, gF.next ≤ s → s < gL.next → gB.inputOf s k = some q →
+      (s = lO.uid ∧ q.node = lf.uid) ∨ (s = tO.uid ∧ ∃ b, b < pairs.length ∧ q = insT b) ∨
+        (s = aO.uid ∧ ∃ b, b < pairs.length ∧ q = insA b) := by
+    intro s k q h1 h2 hq
+    by_cases eL : s = lO.uid
+    · rw [eL] at hq
+      obtain ⟨hk, e⟩ := cLB.input_full hq
+      exact Or.inl ⟨eL, by rw [e, hinsL k hk]⟩
+    · by_cases eT : s = tO.uid
+      · rw [eT] at hq
+        obtain ⟨hk, e⟩ := cT'.input_full hq
+        exact Or.inr (Or.inl ⟨eT, k, by rw [← hlenP]; exact hk, e⟩)
+      · by_cases eA : s = aO.uid
+        · rw [eA] at hq
+          obtain ⟨hk, e⟩ := cA'.input_full hq
+          exact Or.inr (Or.inr ⟨eA, k, by rw [← hlenP]; exact hk, e⟩)
+        · exfalso
+          rw [hlB.input s k h2 (fun hx => by rcases hx with e | e; exact eT e; exact eA e),
+            hlL.input s k (by rw [hnO]; omega) eL, inO, hin0 s k h1] at hq
+          cases hq
+  have nT : ¬ Reach gB a tO.uid := by
+    intro hre
+    rcases hre.inv with h | ⟨k, q, hq, hr⟩
+    · have : tO.uid = gF.next + 2 := rfl
+      omega
+    · obtain ⟨hk, e⟩ := cT'.input_full hq
+      rw [e] at hr
+      exact (hreachB k (by rw [← hlenP]; exact hk)).2.1 hr
+  have nL : ¬ Reach gB a lO.uid := by
+    intro hre
+    rcases hre.inv with h | ⟨k, q, hq, hr⟩
+    · have : lO.uid = gF.next := rfl
+      omega
+    · obtain ⟨hk, e⟩ := cLB.input_full hq
+      rw [e, hinsL k hk] at hr
+      have hr9 : Reach g9 a lf.uid := Reach.old hF9B H.wired H.lfuid.2 hr
+      exact H.ffne.2 (H.reach _ (hadef ▸ hr9))
+  have rA : Reach gB a aO.uid :=
+    Reach.one (hreachB 0 hlenpos).1 (cA'.filled 0 (by rw [hlenP]; exact hlenpos))
+  have regB : ∀ m, Reach gB a m → m ≠ a → W3.live m ∧ ∀ k q, gB.inputOf m k = some q → Reach gB a q.node := by
+    intro m hre hne
+    by_cases h9 : m < g9.next
+    · exact absurd (by rw [hadef]; exact H.reach m (hadef ▸ Reach.old hF9B H.wired h9 hre)) hne
+    · by_cases hF : m < gF.next
+      · have hreF : Reach gF a m := Reach.old hFFB hlF.wired hF hre
+        obtain ⟨lF, iF⟩ := haregF.reg m (by omega) hreF
+        refine ⟨(keepB ⟨m, 0⟩ (((hlB.agree m (by omega)).1).mpr lF)).1, ?_⟩
+        intro k q hq
+        rw [hFFB.input m k hF] at hq
+        exact (iF k q hq).mono (hFFB.input_mono hbF)
+      · by_cases hL : m < gL.next
+        · by_cases eA : m = aO.uid
+          · refine ⟨(live3 _).mpr (Or.inl eA), ?_⟩
+            intro k q hq
+            rcases midIn m k q (by omega) hL hq with ⟨e, _⟩ | ⟨e, _⟩ | ⟨_, b, hb, e⟩
+            · exact absurd (e.symm.trans eA) hne_la
+            · exact absurd (e.symm.trans eA) hne_ta
+            · rw [e]; exact (hreachB b hb).1
+          · exfalso
+            rcases hre.inv with h | ⟨k, q, hq, _⟩
+            · exact hne h
+            · rcases midIn m k q (by omega) hL hq with ⟨e, _⟩ | ⟨e, _⟩ | ⟨e, _⟩
+              · exact nL (e ▸ hre)
+              · exact nT (e ▸ hre)
+              · exact eA e
+        · obtain ⟨lB, iB⟩ := haregB.reg m (by omega) hre
+          exact ⟨(keepB ⟨m, 0⟩ lB).1, iB⟩
+  have closedB : ∀ s k q, g.next ≤ s → gB.inputOf s k = some q → g.next ≤ q.node := by
+    intro s k q hs hq
+    by_cases h9 : s < g9.next
+    · rw [hF9B.input s k h9] at hq
+      exact H.closed s k q hs hq
+    · by_cases hF : s < gF.next
+      · rw [hFFB.input s k hF] at hq
+        rcases haregF.es s k q (by omega) hq with h | h
+        · omega
+        · exact h.1
+      · by_cases hL : s < gL.next
+        · rcases midIn s k q (by omega) hL hq with ⟨_, e⟩ | ⟨_, b, hb, e⟩ | ⟨_, b, hb, e⟩
+          · rw [e]; exact H.lfuid.1
+          · have := (hreachB b hb).2.2.2
+            rw [e]; omega
+          · have := (hreachB b hb).2.2.1
+            rw [e]; omega
+        · rcases haregB.es s k q (by omega) hq with h | h
+          · omega
+          · exact h.1
   refine ⟨_, gB, W3, hrun, hi3, hfB, hag3, headB _ _ H.ha, headB _ _ H.ht, headB _ _ H.hl, H.distinct, ?_,
     ⟨(live3 _).mpr (Or.inl rfl), ?_⟩, ⟨(live3 _).mpr (Or.inr (Or.inl rfl)), ?_⟩,
     ⟨(live3 _).mpr (Or.inr (Or.inr (Or.inl rfl))), ?_⟩, ?_, ?_, hlB.wired,
     ⟨by show g.next ≤ gF.next + 4; omega, by show g.next ≤ gF.next + 2; omega, by show g.next ≤ gF.next; omega⟩, ?_,
-    fun h => h.elim, fun h => h.elim, fun h => h.elim, fun h => h.elim⟩
+    fun _ m hre hne => regB m (hadef ▸ hre) (hadef ▸ hne) |>.imp id (fun h k q hq => hadef ▸ h k q hq),
+    fun _ => hadef ▸ rA, fun _ => ⟨hadef ▸ nT, hadef ▸ nL⟩, fun _ => closedB⟩
   · -- open nodes
     intro n' hn' hl' ho
     rcases (live3 _).mp hl' with e | e | e | h
